@@ -95,4 +95,25 @@ CHECKS = {
         "level_text": "Storage faults are injected at the libc seam inside sampled operations (including the engine's own rollback and retries) and invalid-input classes are enumerated per write path; every failed call is judged live and through a real recovery.",
         "level_note": "trusted base: libc seam + fault plan, kill-model image of the journal, reference map; histories and fault positions sampled",
     },
+    "C08": {
+        "level": "exploration",
+        "design_ref": "DESIGN.md section 5/C08",
+        "engine": "E2 simsched",
+        "technique": "deterministic simulation: seeded lock-granularity scheduler (random walk, sticky walk, PCT d<=3, bounded preemption) over real threads with parking_lot's RwLock rules modelled; deadlock = no runnable and no grantable thread",
+        "rule": "programs = 2-3 threads x 1-2 operations drawn from the full API catalogue (insert/overwrite/delete/batch_delete/batch_delete_by_metadata_filter/update_metadata/"
+                "bulk_load/query/bulk_query/get_document_with_metadata/get_embedding_cache_aware/get_metadata/exists/knn_search/knn_search_batch/flush_hot_tier/stats/cache_size/"
+                "hsc_lifecycle_stats/create_snapshot/ids_for_metadata_filter/update_predictor/access-logger writes/strategy stats) after a 0-6 operation warm-up, x cache strategy "
+                "{LRU, learned, learned+semantic, A/B} x persistence on/off (file-system calls are scheduling points too) x snapshot interval {0,1,2,1000}; 8 seeded schedules per program. "
+                "evaluations = schedules executed to completion or to an all-blocked state. distinct_nontrivial = distinct hashes of the (thread, lock ordinal, operation) decision trace "
+                "with more than 2 decisions. Every 16th run records acquisition sites; site-level 2-cycles of the accumulated lock-order graph are reported as probes only.",
+        "assumptions": [
+            "schedules are sampled, not enumerated up to a preemption bound",
+            "rayon/tokio helper threads are not scheduled (they run while their controlled caller is blocked in join)",
+            "server-level locks (tenant quota, rate limiter, usage tracker) are exercised by C14/C19, not here",
+        ],
+        "expected_probes": [],
+        "tiers": {"quick": {"runs_per_worker": 1000000, "budget_s": 40}, "thorough": {"runs_per_worker": 10000000, "budget_s": 900}},
+        "level_text": "Seeded exploration of schedules at lock granularity for pairs/triples of API calls; the all-blocked state of the lock model is the oracle, each deadlock is re-run with acquisition sites and reduced to the operations in flight.",
+        "level_note": "trusted base: the lock model (parking_lot raw_rwlock.rs rules), the shim; schedules sampled",
+    },
 }
